@@ -43,7 +43,7 @@ import numpy as np, pandas as pd
 from formulaic import Formula, model_matrix
 data = {data}
 formula = Formula({spec!r}, _ordering={ordering!r})
-mm = formula.get_model_matrix(data, output={output!r}, context={{'np': np}})
+mm = formula.get_model_matrix(data, output={output!r}, context={{'np': np}}, cluster_by={cluster!r})
 ms = mm.model_spec
 ncols = mm.shape[1]
 terms = {{str(t): t for t in ms.terms}}
@@ -114,6 +114,26 @@ def names_in_expr(expr):
     return {("my col" if n.id == "my_col_" else n.id) for n in ast.walk(tree) if isinstance(n, ast.Name)}
 
 
+def candidate_orders(terms, cluster):
+    """Possible column-generation orders of the terms (objects of `terms`, re-ordered)."""
+    if cluster == "none":
+        return [list(terms)]
+
+    def is_cat(expr):
+        return expr in ("A", "B", "U") or expr.startswith("C(")
+
+    out = []
+    for keyfn in (frozenset, tuple):
+        groups = {}
+        for t in terms:
+            nums = keyfn(f.expr for f in t.factors if f.eval_method.value != "literal" and not is_cat(f.expr))
+            groups.setdefault(nums, []).append(t)
+        cand = [t for g in groups.values() for t in g]
+        if all([id(t) for t in cand] != [id(t) for t in c] for c in out):
+            out.append(cand)
+    return out
+
+
 def check_case(acc, case):
     """case: dict(spec=str|list, ordering, data key, output)."""
     import numpy as np
@@ -122,9 +142,10 @@ def check_case(acc, case):
     from formulaic.formula import SimpleFormula
 
     spec, ordering, dkey, output = case["spec"], case["ordering"], case["data"], case["output"]
+    cluster = case.get("cluster", "none")
     data = eval(DATA_SRC[dkey], {"pd": pd})
-    pre = PRE.format(data=DATA_SRC[dkey], spec=spec, ordering=ordering, output=output)
-    base = {"formula": spec, "ordering": ordering, "data": dkey, "output": output}
+    pre = PRE.format(data=DATA_SRC[dkey], spec=spec, ordering=ordering, output=output, cluster=cluster)
+    base = {"formula": spec, "ordering": ordering, "data": dkey, "output": output, "cluster_by": cluster}
     ctx = {"np": np}
 
     def W(assertion):
@@ -133,7 +154,7 @@ def check_case(acc, case):
     # ---- materialize (failures here belong to other properties; a C10 case needs a materialized spec)
     try:
         formula = Formula(spec, _ordering=ordering)
-        mm = formula.get_model_matrix(data, output=output, context=ctx)
+        mm = formula.get_model_matrix(data, output=output, context=ctx, cluster_by=cluster)
     except Exception as e:
         acc.stat(f"not-materializable:{type(e).__name__}")
         return
@@ -145,8 +166,8 @@ def check_case(acc, case):
     ncols = mm.shape[1]
     unsorted_any = any(term_pieces(t) != sorted(term_pieces(t)) for t in terms)
     multi_any = any(a in str(spec) for a in MULTI)
-    acc.case((repr(spec), ordering, dkey, output), nontrivial=len(terms) >= 2 and ncols >= 2,
-             sample={"formula": spec, "ordering": ordering, "output": output, "columns": ncols})
+    acc.case((repr(spec), ordering, dkey, output, cluster), nontrivial=len(terms) >= 2 and ncols >= 2,
+             sample={"formula": spec, "ordering": ordering, "output": output, "columns": ncols, "cluster_by": cluster})
 
     def attempt(clause, cls, assertion, fn):
         try:
@@ -204,28 +225,38 @@ def check_case(acc, case):
                 "assert [str(t) for t in ms.term_indices] == [str(t) for t in ms.terms], 'term order'")
     if flat != list(range(ncols)):
         acc.fail("C10.terms.partition", "cover-contiguous-disjoint" + sfx, W(part_src), f"term_indices {[(str(k), v) for k, v in ti_list]} over {ncols} columns")
-    if not dup and [id(k) for k, _ in ti_list] != [id(t) for t in terms] and [str(k) for k, _ in ti_list] != [str(t) for t in terms]:
-        acc.fail("C10.terms.partition", "term-order" + sfx, W(part_src), f"{[str(k) for k, _ in ti_list]} vs terms {[str(t) for t in terms]}")
-
-    # ---- ground truth from prefix materializations (pandas labels)
-    off = None
+    # ---- ground truth from prefix materializations (pandas labels), in the order the columns are generated:
+    # formula order, or -- with cluster_by="numerical_factors" -- terms grouped by their numerical factors
+    # (first appearance); the candidate whose prefixes reproduce the full labels is the generation order.
+    off, gen = None, None
     if not dup:
         try:
-            full = [str(c) for c in formula.get_model_matrix(data, output="pandas", context=ctx).columns]
-            off = [0]
-            for k in range(1, len(terms) + 1):
-                cols = [str(c) for c in SimpleFormula(terms[:k], _ordering="none").get_model_matrix(data, output="pandas", context=ctx).columns]
-                if cols != full[: len(cols)] or len(cols) < off[-1]:
+            full = [str(c) for c in formula.get_model_matrix(data, output="pandas", context=ctx, cluster_by=cluster).columns]
+            for cand in candidate_orders(terms, cluster):
+                off = [0]
+                for k in range(1, len(cand) + 1):
+                    cols = [str(c) for c in SimpleFormula(cand[:k], _ordering="none").get_model_matrix(
+                        data, output="pandas", context=ctx, cluster_by=cluster).columns]
+                    if cols != full[: len(cols)] or len(cols) < off[-1]:
+                        off = None
+                        break
+                    off.append(len(cols))
+                if off is not None and (off[-1] != len(full) or full != names):
                     off = None
+                if off is not None:
+                    gen = cand
                     break
-                off.append(len(cols))
-            if off is not None and (off[-1] != len(full) or full != names):
-                off = None
         except Exception:
             off = None
+    want_order = gen if gen is not None else (terms if cluster == "none" else None)
+    if not dup and want_order is not None and [str(k) for k, _ in ti_list] != [str(t) for t in want_order]:
+        acc.fail("C10.terms.partition", "term-order" + sfx, W(part_src if cluster == "none" else f"assert [str(t) for t in ms.term_indices] == {[str(t) for t in want_order]!r}  # order in which the columns are generated"),
+                 f"{[str(k) for k, _ in ti_list]} vs generation order {[str(t) for t in want_order]}")
+    if gen is not None and [str(t) for t in gen] != [str(t) for t in terms]:
+        acc.case((repr(spec), ordering, dkey, output, "clustering-permutes-terms"), True)
     truth = {}
     if off is not None:
-        for k, t in enumerate(terms):
+        for k, t in enumerate(gen):
             truth[id(t)] = list(range(off[k], off[k + 1]))
             ok, got = attempt("C10.terms.indices", "term_indices[Term]", f"ms.term_indices[terms[{str(t)!r}]]", lambda: list(ti[t]))
             if ok and got != truth[id(t)]:
@@ -370,13 +401,16 @@ def check_case(acc, case):
 # ------------------------------------------------------------------ enumeration
 def interaction(rng, k, pool):
     fs = rng.sample(pool, k)
+    if rng.random() < 0.15:  # literal numeric multiplier (scaled term)
+        fs.insert(rng.randrange(len(fs) + 1), rng.choice(["2", "3", "0.5"]))
     return ":".join(fs)
 
 
 def term_pool():
     """Fixed pool for the exhaustive part (includes unsorted interactions, a single-level factor, multi-column transforms)."""
     return ["x", "A", "U", "z:x", "B:A", "x:A", "A:B", "poly(x, 3)", "bs(w, df=4)", "C(A, contr.sum)", "poly(z, 2):A",
-            "`my col`:x", "x:U", "C(B):x", "center(x)", "w:z:x", "C(A, contr.helmert):B", "np.log(x + 1)"]
+            "`my col`:x", "x:U", "C(B):x", "center(x)", "w:z:x", "C(A, contr.helmert):B", "np.log(x + 1)",
+            "3:w", "2:x:B", "z:A"]
 
 
 def worker(args):
@@ -423,17 +457,20 @@ def run_bounded(ctx):
                         continue
                     i += 1
                     outs = outputs if ctx.thorough else [outputs[i % 3]]
-                    for out in outs:
-                        ex_cases.append({"spec": spec, "ordering": ordering, "data": ("d8", "d12")[i % 2], "output": out})
+                    # term clustering re-orders the generated columns (the intercept joins the categorical-only cluster)
+                    clusters = ("none", "numerical_factors") if ctx.thorough or i % 3 == 0 else ("none",)
+                    for cluster in clusters:
+                        for out in outs:
+                            ex_cases.append({"spec": spec, "ordering": ordering, "data": ("d8", "d12")[i % 2], "output": out, "cluster": cluster})
     with ctx.bounded(
         "modelspec-metadata-small-formulas",
-        rule="every formula of 1 term and every ordered pair of terms (thorough: all; quick: a fixed third) from a pool of 18 terms "
-             "(unsorted interactions, single-level factor => zero-column terms, poly/bs/C(contr) multi-column transforms, quoted name) "
-             "x intercept on/off x ordering degree/none x 2 data frames x outputs pandas/numpy/sparse (quick: one output per formula, "
+        rule="every formula of 1 term and every ordered pair of terms (thorough: all; quick: a fixed third) from a pool of 21 terms "
+             "(unsorted interactions, single-level factor => zero-column terms, poly/bs/C(contr) multi-column transforms, quoted name, literal multipliers `3:w`) "
+             "x intercept on/off x ordering degree/none x cluster_by none/numerical_factors (quick: every third) x 2 data frames x outputs pandas/numpy/sparse (quick: one output per formula, "
              "rotating); evaluations also count each subset() regeneration; extra distinct keys mark cases with a zero-column term, "
              "an unsorted interaction or a multi-column transform; non-trivial = >= 2 terms and >= 2 columns",
         exhaustive=bool(ctx.thorough),
-        bound="terms <= 2 of 18 (+ intercept); rows 8/12",
+        bound="terms <= 2 of 21 (+ intercept); rows 8/12",
     ) as b:
         with ProcessPoolExecutor(16) as ex:
             _collect(b, list(ex.map(worker, _chunks(ex_cases, 64))), total, stats)
@@ -448,6 +485,12 @@ def run_bounded(ctx):
     for spec, ordering in fixed:
         for out in outputs:
             rnd_cases.append({"spec": spec, "ordering": ordering, "data": "d8", "output": out})
+    clustered = ["x + z + x:A + z:A", "x + z + A + x:A + z:B + x:z", "x + A", "poly(x, 3) + z + A + poly(x, 3):A + z:B",
+                 "z:x + A:x + x:z:B + B - 1", "3:w + x + 2:x:A + A", "center(x) + B + w + center(x):B + w:A"]
+    for spec in clustered:
+        for cluster in ("numerical_factors", "none"):
+            for out in outputs:
+                rnd_cases.append({"spec": spec, "ordering": "degree", "data": "d8", "output": out, "cluster": cluster})
     for j in range(260 if ctx.thorough else 45):
         nt = rng.randint(3, 6)
         ts = []
@@ -459,13 +502,15 @@ def run_bounded(ctx):
             ts.append(t)
         spec = " + ".join(ts) + rng.choice(["", "", " - 1"])
         ordering = rng.choice(["degree", "degree", "none", "sort"])
+        cluster = rng.choice(["none", "none", "numerical_factors"])
         for out in (outputs if ctx.thorough or j % 3 == 0 else [outputs[j % 3]]):
-            rnd_cases.append({"spec": spec, "ordering": ordering, "data": rng.choice(["d8", "d12"]), "output": out})
+            rnd_cases.append({"spec": spec, "ordering": ordering, "data": rng.choice(["d8", "d12"]), "output": out, "cluster": cluster})
     with ctx.bounded(
         "modelspec-metadata-random-formulas",
-        rule="13 hand-written formulas (patsy-style nesting, list specs with repeated terms, `**`) and seeded random formulas of 3-6 "
+        rule="13 hand-written formulas (patsy-style nesting, list specs with repeated terms, `**`), 7 formulas whose terms are permuted "
+             "by cluster_by=numerical_factors (each with and without clustering), and seeded random formulas of 3-6 "
              "terms (1-3 way interactions in random factor order over 17 atoms: numeric, quoted, categorical incl. single level, "
-             "poly/bs/C(contr)/center/scale/I()/np.log) x ordering degree/none/sort x data x outputs; same checks",
+             "poly/bs/C(contr)/center/scale/I()/np.log; 15% carry a literal multiplier) x ordering degree/none/sort x cluster_by x data x outputs; same checks",
         exhaustive=False,
         bound="terms <= 6, interaction order <= 3",
     ) as b:
